@@ -28,7 +28,7 @@ RULE = (
     "task class, merge, name, variant kind)"
 )
 ASSUMPTIONS = ["names are str", "the merge rule is truck,bus -> car and motorbike -> bicycle (statement)"]
-DECIDING = ["convert_label.checked", "convert_name.checked", "set_target_lists.checked", "C14.registered_names_enumerated", "C14.unregistered_checked", "C14.merge_checked", "C14.config_targets_checked"]
+DECIDING = ["convert_label.checked", "convert_name.checked", "set_target_lists.checked", "C14.registered_names_enumerated", "C14.unregistered_checked", "C14.merge_checked", "C14.config_targets_checked", "C14.task_spelling_checked"]
 JOBS = {"quick": 2, "thorough": 8}
 
 DOC_AUTOWARE = {
@@ -146,6 +146,7 @@ def run(ctx: Ctx) -> None:
             if not ctx.mine(ci):
                 continue
             conv = ref.conv
+            twin = LabelConverter(str(conv.evaluation_task.value), ref.merge, ref.family, count_label_number=False)
             r = ctx.rng("names", ci)
             members = [m.value for m in conv.label_type]
             names = sorted(set(ref.registered) | set(members))
@@ -158,6 +159,10 @@ def run(ctx: Ctx) -> None:
                     ctx.check(lab.label is base, "C14/case_variant_maps_differently", dict(name=name, variant=v, got=str(lab.label), expected=str(base)), "convert_label")
                     ctx.check(conv.convert_name(v) is lab.label, "C14/convert_name_differs_from_convert_label", dict(name=v), "convert_name")
                     ctx.case((ref.family, conv.evaluation_task == EvaluationTask.CLASSIFICATION2D, ref.merge, name, vk), nontrivial=(v != name.lower()) or ref.merge, sample=dict(family=ref.family, task=str(conv.evaluation_task), merge=ref.merge, name=v, label=str(lab.label)) if (ci, name, vk) in ((0, "car", "upper"), (3, "green", "title")) else None)
+                # a converter built with the task given as its string value converts alike (both entry points)
+                ctx.count("C14.task_spelling_checked")
+                t_lab, t_name = twin.convert_label(name).label, twin.convert_name(name.upper())
+                ctx.check(t_lab is base and t_name is base, "C14/converter_built_with_task_string_converts_differently", dict(family=ref.family, merge=ref.merge, task=str(conv.evaluation_task), name=name, enum_task=str(base), string_task=[str(t_lab), str(t_name)]), "convert_label")
                 # merged image == merge(unmerged image)
                 if ref.unmerged is not None:
                     ctx.count("C14.merge_checked")
